@@ -161,9 +161,9 @@ Qed.
 (* everything else leaves [apps] and [orders] alone *)
 Ltac si_frame H s' := inv_ok H; try subst s'; sends; proj_cbn; assumption.
 
-Lemma si_esc_in s a p f d x s' : SI ap s -> is_escrow f = false -> esc_in s a p f d x = Ok s' -> SI ap s'.
+Lemma si_esc_in s a p f d x s' : SI ap s -> is_outside f = true -> esc_in s a p f d x = Ok s' -> SI ap s'.
 Proof. unfold SI, esc_in, obind. intros HI _ H. si_frame H s'. Qed.
-Lemma si_esc_out s a p t d x s' : SI ap s -> is_escrow t = false -> esc_out s a p t d x = Ok s' -> SI ap s'.
+Lemma si_esc_out s a p t d x s' : SI ap s -> is_outside t = true -> esc_out s a p t d x = Ok s' -> SI ap s'.
 Proof. unfold SI, esc_out, obind. intros HI _ H. si_frame H s'. Qed.
 Lemma si_create_pair s a c b q s' : SI ap s -> create_pair s a c b q = Ok s' -> SI ap s'.
 Proof. unfold SI, create_pair, obind. intros HI H. si_frame H s'. Qed.
